@@ -175,7 +175,10 @@ pub fn c12(run: &'static Run) -> (u64, u64) {
     // (b) <H, ucinewgame, P> vs <P> on a fresh state
     let hs = sessions_upto(&letters, 2);
     let probe_letters: Vec<Step> = letters.iter().filter(|s| matches!(s, Step::Search(..))).cloned().collect();
-    let ps_ = sessions_upto(&probe_letters, if quick { 1 } else { 2 });
+    let ps_ = sessions_upto(&probe_letters, 2);
+    // the history may have been long: the table generation before H is 0, 253, 254 or 255 (what 0 / 253 / 254 /
+    // 255 earlier searches leave behind), so that a counter wrap can fall before or after the ucinewgame
+    let start_gens: [u8; 4] = [0, 253, 254, 255];
     let n_b = AtomicU64::new(0);
     par_for(hs.len(), |i| {
         let h = &hs[i];
@@ -207,18 +210,22 @@ pub fn c12(run: &'static Run) -> (u64, u64) {
         match r {
             Err(e) => run.violation("search-panic", format!("search-panic|{}", hsess.key(usize::MAX)), hsess.json(usize::MAX), e),
             Ok(after) => {
+                // only what a user can observe directly is compared here: the fill indicator (hashfull);
+                // everything else (generation counter, history scores) is judged through the behaviour of the
+                // probe searches below, so that an implementation that resets lazily is not flagged
                 let fresh = fresh_like(size);
-                if after != fresh {
-                    run.violation("ucinewgame-not-fresh", format!("ucinewgame-stats|{}", hsess.key(usize::MAX)), hsess.json(usize::MAX), format!("after ucinewgame: generation/occupied/occupancy = {:?}, fresh state {:?}; history scores equal: {}", (after.0, after.1, after.2), (fresh.0, fresh.1, fresh.2), after.3 == fresh.3));
+                if after.2 != fresh.2 {
+                    run.violation("ucinewgame-not-fresh", format!("ucinewgame-stats|{}", hsess.key(usize::MAX)), hsess.json(usize::MAX), format!("after ucinewgame the fill indicator (hashfull) is {}, a fresh engine shows {}", after.2, fresh.2));
                 }
             }
         }
-        for p in &ps_ {
+        for (pi, p) in ps_.iter().enumerate() {
+            let start_gen = start_gens[(i + pi) % 4];
             let mut steps = h.clone();
             steps.push(Step::NewGame);
             let cut = steps.iter().filter(|s| matches!(s, Step::Search(..))).count();
             steps.extend(p.iter().cloned());
-            let full = Session { hash_mb: 1, start_gen: 0, steps };
+            let full = Session { hash_mb: 1, start_gen, steps };
             let fresh = Session { hash_mb: size, start_gen: 0, steps: p.clone() };
             n_b.fetch_add(1, Ordering::Relaxed);
             match (exec_trace(&full, None), exec_trace(&fresh, None)) {
@@ -233,10 +240,49 @@ pub fn c12(run: &'static Run) -> (u64, u64) {
         }
     });
     let b = n_b.load(Ordering::Relaxed);
-    run.family("NEWGAME-VS-FRESH", &format!("every history H of length <= 2 ({}), then ucinewgame, then every probe session of length <= {} ({}): compared with the probe session on a fresh state of the same hash size; table statistics and all history scores right after ucinewgame compared with a fresh state", hs.len(), if quick { 1 } else { 2 }, ps_.len()), b, b * 2, true, "differential oracle");
+    run.family("NEWGAME-VS-FRESH", &format!("every history H of length <= 2 ({}), then ucinewgame, then every probe session of length <= 2 ({}), the table generation before H cycling through 0/253/254/255: compared with the probe session on a fresh state of the same hash size; fill indicator right after ucinewgame compared with a fresh state", hs.len(), ps_.len()), b, b * 2, true, "differential oracle");
     // (c) through the real command loop
     let c = c12_uci(run);
     (a + b + c, n_search.load(Ordering::Relaxed) + b * 2 + c)
+}
+
+/// C12 under schedules: tvc-sched explores every interleaving of the command loop and the search thread for
+/// scripts in which ucinewgame follows a search, and asserts that the tables are empty when ucinewgame returns.
+pub fn newgame_under_schedules(run: &Run) -> (u64, u64) {
+    let Ok(bin) = std::env::var("VERIF_SCHED_BIN") else {
+        run.machinery_error("VERIF_SCHED_BIN is not set (./check builds tvc-sched for C12)".to_string());
+        return (0, 0);
+    };
+    let out = match std::process::Command::new(&bin).arg("newgame").arg(&run.tier).output() {
+        Ok(o) => String::from_utf8_lossy(&o.stdout).to_string(),
+        Err(e) => {
+            run.machinery_error(format!("cannot run {bin}: {e}"));
+            return (0, 0);
+        }
+    };
+    let Some(line) = out.lines().find(|l| l.starts_with("NEWGAME-RESULT ")) else {
+        run.machinery_error("tvc-sched newgame produced no result".to_string());
+        return (0, 0);
+    };
+    let j = match J::parse(line.trim_start_matches("NEWGAME-RESULT ")) {
+        Ok(j) => j,
+        Err(e) => {
+            run.machinery_error(format!("tvc-sched newgame result unreadable: {e}"));
+            return (0, 0);
+        }
+    };
+    let gi = |k: &str| j.get(k).and_then(|x| x.as_i64()).unwrap_or(0) as u64;
+    for f in j.get("failures").and_then(|x| x.as_arr()).cloned().unwrap_or_default() {
+        let script = f.get("script_text").and_then(|x| x.as_str()).unwrap_or("").to_string();
+        let msg = f.get("message").and_then(|x| x.as_str()).unwrap_or("").to_string();
+        if !matches!(f.get("replays_deterministically"), Some(J::Bool(true))) {
+            run.machinery_error(format!("schedule for [{script}] does not replay deterministically"));
+            continue;
+        }
+        run.violation("ucinewgame-not-fresh-under-schedule", format!("ucinewgame-schedule|{}", f.get("script").and_then(|x| x.as_str()).unwrap_or("")), f.clone(), format!("[{script}] under some interleaving of the command loop and the search thread: {msg}"));
+    }
+    run.family("E6-NEWGAME", &format!("every well-formed script of length <= {} in which a ucinewgame follows a search, every schedule with <= {} preemptions (shuttle): when ucinewgame returns the shared tables are empty", gi("max_length"), gi("preemption_bound")), gi("executions"), gi("steps"), true, &format!("{} scripts", gi("scripts")));
+    (gi("executions"), gi("steps"))
 }
 
 fn uci_go_trace(d: &mut Drv, run: &Run, script_key: &str, case: &J) -> Option<Vec<String>> {
@@ -355,6 +401,94 @@ pub fn replay_uci(run: &'static Run, case: &J) {
     }
 }
 
+// ------------------------------------------------------------------------------------------------ C08 (text)
+
+/// C08 on what the engine actually prints: `info ... pv ...` lines of the real command loop, parsed and
+/// replayed on the reference model (legal line, depth sequence, mate length).
+pub fn c08_text(run: &'static Run) -> (u64, u64) {
+    let roots = crate::searchchk::tactical_roots();
+    let maxd = if run.quick() { 5 } else { 7 };
+    let n = AtomicU64::new(0);
+    let lines_checked = AtomicU64::new(0);
+    par_for(roots.len(), |i| {
+        let g = roots[i].clone();
+        let (_, root) = g.build().unwrap();
+        let mut pos_line = format!("position fen {}", g.fen);
+        if !g.moves.is_empty() {
+            pos_line.push_str(" moves ");
+            pos_line.push_str(&g.moves.join(" "));
+        }
+        let script = vec![pos_line.clone(), format!("go depth {maxd}")];
+        let case = J::obj(vec![("kind", J::s("uci-script")), ("hash_mb", J::i(1)), ("lines", J::Arr(script.iter().map(|l| J::s(l.clone())).collect()))]);
+        let work = {
+            let script = script.clone();
+            move || -> Option<Vec<String>> {
+                let mut d = Drv::new(1).ok()?;
+                for l in &script {
+                    d.send(l).ok()?;
+                }
+                if d.wait_search(WAIT) != Wait::Finished {
+                    return None;
+                }
+                Some(d.take())
+            }
+        };
+        n.fetch_add(1, Ordering::Relaxed);
+        let Some(out) = crate::util::with_timeout(150, work).flatten() else {
+            run.violation("uci-search-did-not-finish", format!("uci-text|{}", script.join(" ; ")), case, "no answer".into());
+            return;
+        };
+        let mut expect = 1u32;
+        for l in out.iter().filter(|l| l.starts_with("info ")) {
+            lines_checked.fetch_add(1, Ordering::Relaxed);
+            let w: Vec<&str> = l.split_whitespace().collect();
+            let field = |k: &str| w.iter().position(|x| *x == k).and_then(|i| w.get(i + 1)).copied();
+            let depth: u32 = field("depth").and_then(|x| x.parse().ok()).unwrap_or(0);
+            let vio = |kind: &str, detail: String| run.violation(kind, format!("{kind}|{}|depth {depth}", script.join(" ; ")), case.clone(), format!("{}: {detail} (line: {l})", g.key()));
+            if depth != expect || depth > maxd {
+                vio("info-depth-sequence", format!("depth {depth} reported where {expect} was expected (limit {maxd})"));
+            }
+            expect = depth + 1;
+            let pv: Vec<&str> = match w.iter().position(|x| *x == "pv") {
+                Some(i) => w[i + 1..].to_vec(),
+                None => vec![],
+            };
+            if pv.is_empty() {
+                vio("pv-empty", "no principal variation in the info line".into());
+                continue;
+            }
+            let mut p = root.clone();
+            let mut ok = true;
+            for (j, m) in pv.iter().enumerate() {
+                match p.legal_moves().into_iter().find(|x| x.uci() == *m) {
+                    Some(rm) => p = p.apply(&rm),
+                    None => {
+                        vio("pv-illegal-move", format!("move {} ({m}) of the printed line is not legal in {}", j + 1, p.to_fen()));
+                        ok = false;
+                        break;
+                    }
+                }
+            }
+            if !ok {
+                continue;
+            }
+            if let Some(i) = w.iter().position(|x| *x == "mate") {
+                let nm: i64 = w.get(i + 1).and_then(|x| x.parse().ok()).unwrap_or(0);
+                let want = if nm > 0 { 2 * nm - 1 } else { -2 * nm } as usize;
+                let mated_side_ok = if nm > 0 { p.side != root.side } else { p.side == root.side };
+                if nm == 0 || pv.len() != want || !p.is_checkmate() || !mated_side_ok {
+                    vio("mate-announcement", format!("mate {nm} printed with a line of {} plies (expected {want}) ending in {} (checkmate: {})", pv.len(), p.to_fen(), p.is_checkmate()));
+                }
+            }
+        }
+    });
+    let a = n.load(Ordering::Relaxed);
+    let b = lines_checked.load(Ordering::Relaxed);
+    run.family("UCI-TEXT", &format!("{} roots x go depth {maxd} through the real command loop: every printed info line parsed and replayed on the reference model", roots.len()), a, b, true, "the text a GUI receives, not the in-process SearchInfo");
+    run.count("printed_info_lines", b);
+    (a, b)
+}
+
 // ------------------------------------------------------------------------------------------------ C13
 
 #[derive(Clone, Debug)]
@@ -425,6 +559,27 @@ fn option_scenario_inner(run: &Run, lines: &[String]) {
     };
     for l in lines {
         run.distinct_outcome(l.clone());
+        if l.starts_with("go ") {
+            // a clock-limited go (ends through its depth limit); must be answered by a legal bestmove
+            d.take();
+            if let Err(e) = d.send(C13_POS).and_then(|_| d.send(l)) {
+                vio("option-go-failed", format!("`{l}` after [{}]: {e}", d.sent.join(" ; ")));
+                return;
+            }
+            match d.wait_search(WAIT) {
+                Wait::Finished => {}
+                w => {
+                    vio("option-search-did-not-finish", format!("search thread {w:?} after [{}]", d.sent.join(" ; ")));
+                    return;
+                }
+            }
+            let out = d.take();
+            if out.iter().filter(|x| x.starts_with("bestmove")).count() != 1 {
+                vio("option-bestmove", format!("after [{}]: {:?}", d.sent.join(" ; "), out.iter().filter(|x| x.starts_with("bestmove")).collect::<Vec<_>>()));
+                return;
+            }
+            continue;
+        }
         if l == "go" {
             if !check_go(&mut d) {
                 return;
@@ -544,6 +699,7 @@ pub fn c13(run: &'static Run) -> (u64, u64) {
             }
             scenarios.push(all);
             for v in [o.min, o.max, (o.min + o.max) / 2] {
+                scenarios.push(vec![set(&o.name, v), "go wtime 30000 btime 30000 movestogo 40 depth 3".into(), "go wtime 2000 btime 2000 winc 100 binc 100 depth 3".into(), "go movetime 5000 depth 3".into()]);
                 scenarios.push(vec![set(&o.name, v)]);
                 scenarios.push(vec!["go".into(), set(&o.name, v)]);
                 scenarios.push(vec!["go".into(), "ucinewgame".into(), set(&o.name, v)]);
@@ -612,6 +768,17 @@ fn check_position_cmd(run: &Run, d: &mut Drv, base: &str, base_pos: &Pos, moves:
     exp.sort();
     if got != exp {
         vio("position-replies", format!("after `{line}` the engine considers {:?}, the rules give {:?}", got, exp));
+    }
+    // the reporting layer (bestmove / pv text) writes moves through UciMove::notation
+    // (move by move: a swap of two promotion letters leaves the set of texts unchanged)
+    for m in g.moves().iter() {
+        let want_text = crate::eng::move_from_eng(*m).uci();
+        let printed = crate::engine::uci::UciMove::from(*m).notation();
+        let debug = format!("{m:?}");
+        if printed != want_text || debug != want_text {
+            vio("move-text", format!("after `{line}`: the move {want_text} is printed as {printed} by the reporting layer and as {debug} by the move list"));
+            break;
+        }
     }
     let _ = base_pos;
     if with_go && !exp.is_empty() {
